@@ -88,7 +88,7 @@ Definition outcomes_agree (st : state) (h : hobs) : bool :=
 Definition escaped (st : state) : bool :=
   existsb (fun p => match snd p with Disp EvEscape => true | _ => false end) (log st).
 
-Inductive hview := VHFull | VH02 | VH03 | VH04 | VH05.
+Inductive hview := VHFull | VH02 | VH03 | VH04 | VH05 | VH16.
 
 Definition hagree (v : hview) (h : hcase) : bool :=
   let st := model_run h in
@@ -110,6 +110,16 @@ Definition hagree (v : hview) (h : hcase) : bool :=
                  (writes_of st) (ho_writes o)
       && Bool.eqb (match holder st with Some _ => true | None => false end) (ho_locked o)
       && list_agree (fun m x => Nat.eqb (fst m) (fst x)) (sort_by_key (done_callers st)) (ho_outcomes o)
+  | VH16 =>
+      (* per-call scope of skip_schema_validation: which CALLs are written, and for the calls that ended with
+         a result or a validation error, that very outcome *)
+      list_agree write_agree (filter is_call_write (writes_of st)) (filter is_call_frame (ho_writes o))
+      && list_agree (fun m x => Nat.eqb (fst m) (fst x) &&
+                                match fst (snd m) with
+                                | OInvalid _ | OResult _ => outcome_agree (fst (snd m)) (fst (snd x))
+                                | _ => true
+                                end)
+                    (sort_by_key (done_callers st)) (ho_outcomes o)
   | VH05 =>
       (* how each call() ended: the result handed back or the error raised *)
       outcomes_agree st o
